@@ -99,7 +99,8 @@ class TailCallADEVPrimitive(ADEVPrimitive):
         konts: tuple[Callable[..., Any], Callable[..., Any]],
     ) -> "Dual":
         _, kdual = konts
-        return kdual(key, self.before_tail_call(key, dual_tree))
+        key, sub_key = jax.random.split(key)
+        return kdual(key, self.before_tail_call(sub_key, dual_tree))
 
     def get_batched_prim(self, dims: tuple[Any, ...]):
         return TailCallBatchedADEVPrimitive(self, dims)
